@@ -422,10 +422,16 @@ class Ref:
                     # cartesian product
                     combos = [()]
                     for l in lists:
-                        combos = [c + (x,) for c in combos for x in l]
-                        if len(combos) > CAP:
-                            combos = combos[:CAP]
-                            self.capped = True
+                        nxt = []
+                        for c in combos:
+                            for x in l:
+                                nxt.append(c + (x,))
+                                if len(nxt) > CAP:
+                                    break
+                            if len(nxt) > CAP:
+                                self.capped = True
+                                break
+                        combos = nxt
                     for c in combos:
                         res[('A', r.anode, r.cost, c)] = 1
                 if len(res) > CAP:
@@ -557,15 +563,26 @@ def dag_expand(nodes, root=0, cap=CAP, with_cost_fields=True):
             for a in alts(nid):
                 for t in ex(a):
                     s[t] = 1
+                    if len(s) > cap:
+                        capped[0] = True
+                        break
+                if len(s) > cap:
+                    break
             r = tuple(s)
         elif k == 'A':
             combos = [()]
             for c in nd[3]:
                 sub = ex(c)
-                combos = [x + (y,) for x in combos for y in sub]
-                if len(combos) > cap:
-                    combos = combos[:cap]
-                    capped[0] = True
+                nxt = []
+                for x in combos:
+                    for y in sub:
+                        nxt.append(x + (y,))
+                        if len(nxt) > cap:
+                            break
+                    if len(nxt) > cap:
+                        capped[0] = True
+                        break
+                combos = nxt
             r = tuple(('A', nd[1], nd[2], c) for c in combos)
         else:
             raise DagError("bad node")
